@@ -9,6 +9,7 @@ import (
 	"regexp"
 	"strconv"
 	"strings"
+	"syscall"
 	"time"
 
 	"github.com/benbjohnson/litestream"
@@ -513,6 +514,23 @@ func (s *Scn) do(op string) Outcome {
 		}
 		err := s.lsNew()
 		return Outcome{Err: err}
+	case "LF": // arm a one-shot ENOSPC on the next local LTX staging file: LF:open | LF:write | LF:sync
+		if s.DB == nil || !s.LSOpen || (s.lfArmed != nil && s.lfArmed()) {
+			return ill
+		}
+		mode, skip := arg, 0
+		if i := strings.IndexByte(arg, ':'); i >= 0 { // LF:mode:n = the n-th next staging file
+			n, err := strconv.Atoi(arg[i+1:])
+			if err != nil || n < 1 {
+				return ill
+			}
+			mode, skip = arg[:i], n-1
+		}
+		if mode != "open" && mode != "write" && mode != "sync" {
+			return ill
+		}
+		s.lfArmed, s.lfMode = s.DB.VerifFailNextLTXStaging(mode, skip, syscall.ENOSPC), arg
+		return Outcome{}
 	case "RSET":
 		if s.DB == nil {
 			return ill
